@@ -2,15 +2,15 @@ SPECIFICATION Spec
 CONSTANTS
   Keys = {"a"}
   NonPub = {}
-  Sizes = {0}
+  Sizes = {3}
   Delays = {TRUE}
   Lates = {FALSE}
-  Threads = {1}
-  MaxAdds = 1
-  MaxEnds = 1
+  Threads = {1, 2}
+  MaxAdds = 3
+  MaxEnds = 0
   AtomicAdd = FALSE
-  SplitGet = FALSE
-  RecheckOnStore = TRUE
+  SplitGet = TRUE
+  RecheckOnStore = FALSE
   StaleTimers = FALSE
 VIEW View
 INVARIANTS TypeOK
